@@ -1,6 +1,8 @@
 (* C11 -- Segment lookup returns the bracketing interval for every axis and query. *)
 From Coq Require Import List Bool Arith ZArith QArith Qcanon.
-From NI Require Import Num Base Lookup LookupProofs.
+From Coq Require Import Reals.
+From Flocq Require Import Core.
+From NI Require Import Num Base Lookup LookupProofs FloatRound FloatLinear.
 Import ListNotations.
 Local Open Scope nat_scope.
 
@@ -76,6 +78,23 @@ Theorem C11_lower_index_XQ :
          ltb NumXQ x (XFin (nth (i + 1) ax 0%Qc)) = true).
 Proof. exact lower_index_XQ. Qed.
 Print Assumptions C11_lower_index_XQ.
+
+(* binary floats: the O(1) guess, computed with correctly rounded operations, truncates to a valid
+   index whenever 7 u (len - 1) <= 1 (binary64: up to 2^50 knots) and no intermediate underflows, so
+   the lookup does not panic and returns the bracketing interval *)
+Theorem C11_float_lookup :
+  forall (prec emin : Z) (prec_gt_0_ : FLX.Prec_gt_0 prec), (11 <= prec)%Z ->
+  forall (remR powR : R -> R -> R) (ax : list R) (x : R),
+    StrictIncF prec emin remR powR ax -> 2 <= length ax ->
+    (7 * uu prec * INR (length ax - 1) <= 1)%R -> (INR (length ax) <= IZR two64)%R ->
+    ((nth 0 ax 0 < x)%R -> (x < nth (length ax - 1) ax 0)%R ->
+       cf_no_underflow prec emin 0%R (INR (length ax - 1)) (nth 0 ax 0%R) (nth (length ax - 1) ax 0%R) x) ->
+    exists i, lower_index (NumF prec emin remR powR) ax x = Ok i /\ i + 2 <= length ax /\
+      ((x <= nth 0 ax 0)%R -> i = 0) /\
+      ((nth 0 ax 0 < x)%R -> (nth (length ax - 1) ax 0 <= x)%R -> i = length ax - 2) /\
+      ((nth 0 ax 0 < x)%R -> (x < nth (length ax - 1) ax 0)%R -> (nth i ax 0 <= x < nth (i + 1) ax 0)%R).
+Proof. exact lower_index_float. Qed.
+Print Assumptions C11_float_lookup.
 
 Example C11_ex :
   lower_index NumQc [qc 0 1; qc 1 1; qc 10 1; qc 100 1] (qc 50 1) = Ok 2 /\
